@@ -1,13 +1,13 @@
 package main
 
 import (
-	"time"
 	"bytes"
 	"encoding/json"
 	"errors"
 	"fmt"
 	"runtime/debug"
 	"strings"
+	"time"
 
 	pw "google.golang.org/protobuf/encoding/protowire"
 
